@@ -99,3 +99,151 @@ theorem disjoint_iff {a b : Row n} :
 
 end Row
 end RV.C04
+
+namespace RV.C04
+namespace Row
+variable {n : Nat}
+
+@[simp] theorem merge_empty (μ : Row n) : μ.merge Row.empty = μ := by
+  apply ext_get; intro v; simp [get_merge]
+
+@[simp] theorem empty_merge (μ : Row n) : (Row.empty : Row n).merge μ = μ := by
+  apply ext_get; intro v; rw [get_merge]; cases μ.get v <;> simp
+
+@[simp] theorem compat_empty_left (μ : Row n) : (Row.empty : Row n).compat μ = true := by
+  rw [compat_iff]; intro v s t h; simp at h
+
+@[simp] theorem compat_empty_right (μ : Row n) : μ.compat (Row.empty : Row n) = true := by
+  rw [compat_iff]; intro v s t _ h; simp at h
+
+theorem compat_comm (a b : Row n) : a.compat b = b.compat a := by
+  have key : ∀ a b : Row n, a.compat b = true → b.compat a = true := by
+    intro a b h
+    rw [compat_iff] at h ⊢
+    intro v s t hs ht
+    exact (h v t s ht hs).symm
+  cases h1 : a.compat b <;> cases h2 : b.compat a <;> try rfl
+  · rw [key b a h2] at h1; cases h1
+  · rw [key a b h1] at h2; cases h2
+
+/-- pointwise view of a Bool-valued compat for rewriting: `compat` is false iff some variable clashes -/
+theorem compat_eq_false_iff {a b : Row n} :
+    a.compat b = false ↔ ∃ v s t, a.get v = some s ∧ b.get v = some t ∧ s ≠ t := by
+  constructor
+  · intro h
+    apply Classical.byContradiction
+    intro hne
+    have : a.compat b = true := by
+      rw [compat_iff]
+      intro v s t hs ht
+      apply Classical.byContradiction
+      intro hst
+      exact hne ⟨v, s, t, hs, ht, hst⟩
+    rw [this] at h; cases h
+  · rintro ⟨v, s, t, hs, ht, hst⟩
+    cases h : a.compat b with
+    | false => rfl
+    | true => rw [compat_iff] at h; exact absurd (h v s t hs ht) hst
+
+/-- (J1) pushing `μ2` into the context `μ0 ⊕ μ1` = joining `μ1` with `μ2`, then with `μ0` -/
+theorem compat_merge_ctx {μ0 μ1 μ2 : Row n} (h1 : μ1.compat μ0 = true) :
+    μ2.compat (μ0.merge μ1) = (μ1.compat μ2 && (μ1.merge μ2).compat μ0) := by
+  rw [compat_iff] at h1
+  cases hr : (μ1.compat μ2 && (μ1.merge μ2).compat μ0) with
+  | true =>
+    simp only [Bool.and_eq_true] at hr
+    obtain ⟨h12, h120⟩ := hr
+    rw [compat_iff] at h12 h120 ⊢
+    intro v s t hs ht
+    rw [get_merge] at ht
+    cases h1v : μ1.get v with
+    | some u =>
+      rw [h1v] at ht; simp at ht; subst ht
+      exact (h12 v _ _ h1v hs).symm
+    | none =>
+      rw [h1v] at ht; simp at ht
+      exact h120 v s t (by rw [get_merge, hs]; rfl) ht
+  | false =>
+    rw [compat_eq_false_iff]
+    simp only [Bool.and_eq_false_iff] at hr
+    rcases hr with h12 | h120
+    · rw [compat_eq_false_iff] at h12
+      obtain ⟨v, s, t, hs, ht, hst⟩ := h12
+      exact ⟨v, t, s, ht, by rw [get_merge, hs]; rfl, fun e => hst e.symm⟩
+    · rw [compat_eq_false_iff] at h120
+      obtain ⟨v, s, t, hs, ht, hst⟩ := h120
+      rw [get_merge] at hs
+      cases h2v : μ2.get v with
+      | some u =>
+        rw [h2v] at hs; simp at hs; subst hs
+        refine ⟨v, u, t, h2v, ?_, hst⟩
+        rw [get_merge]
+        cases h1v : μ1.get v with
+        | none => simpa using ht
+        | some w => have := h1 v w t h1v ht; subst this; rfl
+      | none =>
+        rw [h2v] at hs; simp at hs
+        exact absurd (h1 v s t hs ht) hst
+
+/-- under pairwise compatibility the order of merging is irrelevant -/
+theorem merge3_eq {μ0 μ1 μ2 : Row n} (h1 : μ1.compat μ0 = true) (h2 : μ2.compat (μ0.merge μ1) = true) :
+    ((μ0.merge μ1).merge μ2).merge (μ0.merge μ1) = μ0.merge (μ1.merge μ2) := by
+  rw [compat_iff] at h1 h2
+  apply ext_get
+  intro v
+  simp only [get_merge]
+  have h2v := h2 v
+  have h1v := h1 v
+  rw [get_merge] at h2v
+  cases e1 : μ1.get v <;> cases e2 : μ2.get v <;> cases e0 : μ0.get v <;> simp_all
+
+theorem merge_comm_of_compat {a b : Row n} (h : a.compat b = true) : a.merge b = b.merge a := by
+  rw [compat_iff] at h
+  apply ext_get
+  intro v
+  simp only [get_merge]
+  have := h v
+  cases ea : a.get v <;> cases eb : b.get v <;> simp_all
+
+end Row
+end RV.C04
+
+namespace RV.C04
+namespace Row
+variable {n : Nat}
+
+/-- (J3) joining two solutions that were both joined with `μ0` = joining them, then with `μ0` -/
+theorem compat_both_pushed {μ0 μ1 μ2 : Row n} (h1 : μ1.compat μ0 = true) :
+    (μ2.compat μ0 && (μ0.merge μ1).compat (μ0.merge μ2)) = (μ1.compat μ2 && (μ1.merge μ2).compat μ0) := by
+  rw [Bool.eq_iff_iff]
+  simp only [Bool.and_eq_true, compat_iff, get_merge] at h1 ⊢
+  constructor
+  · rintro ⟨h2, h12⟩
+    refine ⟨?_, ?_⟩ <;> intro v s t hs ht
+    · have a := h2 v; have b := h12 v; have c := h1 v
+      clear h2 h12 h1
+      cases e0 : μ0.get v <;> cases e1 : μ1.get v <;> cases e2 : μ2.get v <;> simp_all
+    · have a := h2 v; have b := h12 v; have c := h1 v
+      clear h2 h12 h1
+      cases e0 : μ0.get v <;> cases e1 : μ1.get v <;> cases e2 : μ2.get v <;> simp_all
+  · rintro ⟨h12, h120⟩
+    refine ⟨?_, ?_⟩ <;> intro v s t hs ht
+    · have a := h12 v; have b := h120 v; have c := h1 v
+      clear h12 h120 h1
+      cases e0 : μ0.get v <;> cases e1 : μ1.get v <;> cases e2 : μ2.get v <;> simp_all
+    · have a := h12 v; have b := h120 v; have c := h1 v
+      clear h12 h120 h1
+      cases e0 : μ0.get v <;> cases e1 : μ1.get v <;> cases e2 : μ2.get v <;> simp_all
+
+theorem merge_both_pushed {μ0 μ1 μ2 : Row n} (h1 : μ1.compat μ0 = true) (h2 : μ2.compat μ0 = true) :
+    (μ0.merge μ1).merge (μ0.merge μ2) = μ0.merge (μ1.merge μ2) := by
+  rw [compat_iff] at h1 h2
+  apply ext_get
+  intro v
+  simp only [get_merge]
+  have a := h1 v; have b := h2 v
+  clear h1 h2
+  cases e0 : μ0.get v <;> cases e1 : μ1.get v <;> cases e2 : μ2.get v <;> simp_all
+
+end Row
+end RV.C04
